@@ -41,10 +41,14 @@ class Check(CheckBase):
         return loader.encoded("ebb_calc", ["max_rate_t3", "rate_t3"])
 
     def cases(self, tier):
-        return [{"label": "T%d" % t, "T": t} for t in (QUICK_T if tier == "quick" else THOROUGH_T)]
+        cs = [{"label": "T%d" % t, "T": t} for t in (QUICK_T if tier == "quick" else THOROUGH_T)]
+        # the same move parameters after an earlier call with a different duration (no state may survive between calls)
+        for t, t0 in ((2, 12), (12, 3), (32, 2)) if tier == "quick" else ((2, 12), (3, 20), (12, 3), (20, 2), (32, 2), (64, 4)):
+            cs.append({"label": "T%d/after-T%d" % (t, t0), "T": t, "prior_T": t0, "split_depth": 5})
+        return cs
 
     def config(self, tier, case):
-        return engine.Config(max_decisions=400, ob_rlimit=600_000_000)
+        return engine.Config(max_decisions=800, ob_rlimit=600_000_000, max_alternatives=48)
 
     def expected_reach(self, tier):
         return ["T<=1", "jerk=0", "vertex-inside", "vertex-outside"]
@@ -63,11 +67,16 @@ class Check(CheckBase):
 
         def logging_rate(time, *a):
             if isinstance(time, SymInt):
-                k = run.concretize(time.t)       # bounded by the path condition (1.5 < t_mid < T - 1.5)
+                k = run.concretize(time.t, limit=300)       # bounded by the path condition (1.5 < t_mid < T - 1.5)
                 time = k
             ticks.append(time)
             return real_rate(time, *a)
         ec.rate_t3 = logging_rate
+        if case.get("prior_T"):
+            run.assume(zabs(jerk.t) * case["prior_T"] ** 2 < (1 << 40))
+            run.assume(zabs(accel.t) * case["prior_T"] < (1 << 40))
+            ec.max_rate_t3(case["prior_T"], rate, accel, jerk)
+            del ticks[:]
         res = ec.max_rate_t3(T, rate, accel, jerk)
         if T <= 1:
             run.reach("T<=1")
@@ -87,8 +96,11 @@ class Check(CheckBase):
     def replay(self, cex):
         ec = loader.native("ebb_calc")
         i = cex["inputs"]
-        T = int(cex["case"][1:])
+        lab = cex["case"]
+        T = int(lab[1:].split("/")[0])
         rate, accel, jerk = int(i["rate"]), int(i["accel"]), int(i["jerk"])
+        if "/after-T" in lab:
+            ec.max_rate_t3(int(lab.split("after-T")[1]), rate, accel, jerk)
         got = ec.max_rate_t3(T, rate, accel, jerk)
         Rs = [abs(R_py(k, rate, accel, jerk)) for k in range(1, T + 1)]
         peak = max(Rs)
